@@ -31,16 +31,48 @@ var markerType = reflect.TypeOf(am.Struct{})
 // TI is the type index of Iface.
 const TI = 9
 
+// Type indexes: 0-4 carrier structs, 5/6 pointers to T0/T1 (composite, unnamed types),
+// 8 Iface2 (an interface whose method set includes Iface's), 9 Iface.
+const (
+	TP0 = 5
+	TP1 = 6
+	TI2 = 8
+)
+
+// Iface2 is a second interface implemented by T3; every Iface2 is an Iface.
+type Iface2 interface {
+	Prov() string
+	Extra() int
+}
+
+func (t T3) Extra() int { return len(t.P) }
+
+var iface2Type = reflect.TypeOf((*Iface2)(nil)).Elem()
+
 func typeOf(i int) reflect.Type {
-	if i == TI {
+	switch i {
+	case TI:
 		return ifaceType
+	case TI2:
+		return iface2Type
+	case TP0:
+		return reflect.PtrTo(carrier[0])
+	case TP1:
+		return reflect.PtrTo(carrier[1])
 	}
 	return carrier[i]
 }
 
 func typeIndex(t reflect.Type) int {
-	if t == ifaceType {
+	switch t {
+	case ifaceType:
 		return TI
+	case iface2Type:
+		return TI2
+	case reflect.PtrTo(carrier[0]):
+		return TP0
+	case reflect.PtrTo(carrier[1]):
+		return TP1
 	}
 	for i, c := range carrier {
 		if c == t {
@@ -51,8 +83,15 @@ func typeIndex(t reflect.Type) int {
 }
 
 func typeName(i int) string {
-	if i == TI {
+	switch i {
+	case TI:
 		return "I"
+	case TI2:
+		return "I2"
+	case TP0:
+		return "P0"
+	case TP1:
+		return "P1"
 	}
 	return fmt.Sprintf("T%d", i)
 }
